@@ -6,7 +6,8 @@ from vlib.runner import Result, SubCheck, Violation
 
 PROPERTY = "C06"
 LEVEL = "exploration"
-RULE = ("A generated row sequence (decisions, rewards, contexts) and a composition of it into consecutive chunks "
+RULE = ("Neighbourhood policies also with a history of more than 1100 rows (first chunk repeated with a drift) followed by small chunks, optionally in a region of their own; catalogues of 520 / 1030 arms now and then. "
+        "A generated row sequence (decisions, rewards, contexts) and a composition of it into consecutive chunks "
         "(chunks of one row and chunks missing arms forced with probability 1/2; the first call may be partial_fit). "
         "Twin A: fit(all rows). Twin B: fit(chunk0) then partial_fit(chunk_i). Same constructor arguments; stream "
         "positions copied A -> B; then predict_expectations and predict on generated queries, twice. Policies: every "
